@@ -44,6 +44,7 @@ func runC16(e *Env) {
 			{"tcp/client.NewConnWithOpts", lprPkg + ".New", "endpointLimit", "LimitClientEndpointParallelRequests"},
 		})
 		checkCtorInit(e, "C16.R7", lprPkg+".New", map[string]string{"limit": "limit", "endpointLimit": "endpointLimit"})
+		observationDoIsLimited(e, "C16.R7")
 	}
 	if e.want("C16.R8") {
 		c16Key(e)
